@@ -1,4 +1,7 @@
 //! Reference components written from the SCION header / data-plane specifications and from the
 //! property statements. Deliberately independent of `sciparse` (no shared layout tables).
+pub mod combine;
 pub mod mac;
+pub mod router;
+pub mod topo;
 pub mod wire;
